@@ -179,7 +179,13 @@ from .config import (
     get_xdg_config_home_path,
 )
 from .credentials import match_partial_url, match_urls
-from .errors import GitProtocolError, HangupException, NotGitRepository, SendPackError
+from .errors import (
+    GitProtocolError,
+    HangupException,
+    NotGitRepository,
+    RefFormatError,
+    SendPackError,
+)
 from .file import FileLocked
 from .object_format import DEFAULT_OBJECT_FORMAT
 from .object_store import GraphWalker
@@ -3094,8 +3100,10 @@ class LocalGitClient(GitClient):
                         ok = target.refs.set_if_equals(refname, old_sha1, new_sha1)
                     else:
                         ok = target.refs.remove_if_equals(refname, old_sha1)
-                except FileLocked:
-                    # Another writer holds the lock on this ref right now.
+                except (FileLocked, OSError, RefFormatError):
+                    # Another writer holds the lock on this ref right now, the
+                    # name collides with an existing ref (directory versus
+                    # file), cannot be stored or is not a valid ref name.
                     ok = False
                 if ok:
                     applied.append((refname, old_sha1, new_sha1))
